@@ -8,6 +8,7 @@ import IrVerif.Lemmas.ScopeReplDeser
 import IrVerif.Lemmas.ScopeModel
 import IrVerif.Lemmas.ScopeModelDup
 import IrVerif.Lemmas.ScopeMeta
+import IrVerif.Lemmas.ScopeAttrProps
 import IrVerif.Model.ScopeFunc9
 import IrVerif.Lemmas.ScopeExt
 import IrVerif.Lemmas.ScopeExtInv
@@ -18,6 +19,7 @@ import IrVerif.Lemmas.ScopeExtTop
 import IrVerif.Lemmas.ScopeExtSerOk
 import IrVerif.Lemmas.ScopeExtModelTop
 import IrVerif.Lemmas.ScopeExtDevCert
+import IrVerif.Props.C17Ext9
 namespace IrVerif.Scope
 
 /-- **C17_total**: `deserialize` is a total function on every `GraphP`, with no well-formedness
@@ -838,5 +840,34 @@ example : isOkB (deserializeM9 exampleIR9b) = true := by decide +kernel
 example : (match deserializeME exampleExtModel with
     | .ok w => isOkB (serializeME (some 10) w)
     | .error _ => false) = true := by decide +kernel
+
+
+/-! ### the attribute layer (`Model/ScopeAttr.lean`, theorems `C17_attr_*` in `Lemmas/ScopeAttrProps.lean`) -/
+
+/-- **C17_idempotent_attrs**: `C17_idempotent_decorated` and `C17_attr_idempotent` together — core model,
+    decorations and NODE ATTRIBUTES (scalar / list kinds, tensors, type protos, reference attributes, GRAPH /
+    GRAPHS, doc strings, duplicate names) of one proto: whenever `deserializeY X = .ok W`, serializing `W` raises —
+    in the decorations (device-configuration checks) or with the TypeError of a surviving UNDEFINED attribute — or
+    yields a proto that deserializes and serializes to itself.  No hypothesis on `X`. -/
+theorem C17_idempotent_attrs (X : YModelP) (W : YWorld) (hd : deserializeY X = .ok W) :
+    (∃ e, serializeY W = .error (.x (.deco e))) ∨ serializeY W = .error (.attr .unsupported) ∨
+    ∃ (W1 : YWorld) (Q : YModelP) (D : YWorld) (W2 : YWorld),
+      serializeY W = .ok (W1, Q) ∧ deserializeY Q = .ok D ∧ serializeY D = .ok (W2, Q) := by
+  simp only [deserializeY] at hd
+  split at hd
+  · simp at hd
+  · rename_i w hx
+    split at hd
+    · simp at hd
+    · rename_i a ha
+      simp only [Except.ok.injEq] at hd
+      subst hd
+      rcases C17_idempotent_decorated X.x w hx with ⟨e, he⟩ | ⟨W1, Q, D, W2, h1, h2, h3⟩
+      · exact .inl ⟨e, by simp only [serializeY, he]⟩
+      · rcases C17_attr_idempotent X.attrs a ha with hq | ⟨Qa, hq, d1, d2⟩
+        · exact .inr (.inl (by simp only [serializeY, h1, hq]))
+        · exact .inr (.inr ⟨⟨W1, a⟩, ⟨Q, Qa⟩, ⟨D, canonModelA a⟩, ⟨W2, canonModelA a⟩,
+            by simp only [serializeY, h1, hq], by simp only [deserializeY, h2, d1],
+            by simp only [serializeY, h3, d2]⟩)
 
 end IrVerif.Scope
